@@ -133,6 +133,19 @@ theorem interferometer_cmds_structure {A : Type} [DecidableEq A] [Neg A] (zero :
       BS2.reverse.flatMap (fun e => [⟨.BS (-(clip e.2.2.1)) zero, [rg reg e.1, rg reg e.2.1]⟩, ⟨.R (-(clip e.2.2.2)), [rg reg e.1]⟩]) :=
   SFV.Decompose.interferometer_cmds_structure zero clip mod2pi identity reg BS1 R BS2
 
+/-- **Reck mesh** (`triangular`, after the `fix:`): local phases first, then `T⁻¹ = R(−φ)·BS(−θ,0)` for the
+entries of the factor list in list order — the documented `U = T₁⁻¹ ⋯ T_k⁻¹ D` of `decompositions.triangular`. -/
+theorem interferometer_triangular_structure {A : Type} [DecidableEq A] [Neg A] (zero : A) (clip mod2pi : A → A)
+    (identity symmetric : Bool) (reg : List Nat) (BS1 : List (Nat × Nat × A × A)) (R : List (Option A))
+    (BS2 : Option (List (Nat × Nat × A × A))) :
+    interferometerDecompose zero clip mod2pi identity false false true reg BS1 R BS2 =
+      (R.zipIdx.map fun qn => ⟨.R (mod2pi (qn.1.getD zero)), [rg reg qn.2]⟩) ++
+      BS1.flatMap (fun e => [⟨.BS (-(clip e.2.2.1)) zero, [rg reg e.1, rg reg e.2.1]⟩, ⟨.R (-(clip e.2.2.2)), [rg reg e.1]⟩]) := by
+  have h := SFV.Decompose.interferometer_cmds_structure zero clip mod2pi identity reg [] R BS1.reverse
+  simp only [interferometerDecompose, if_true]
+  rw [h]
+  simp
+
 /-- **`_sun_compact_cmds`** returns the build (matrix-multiplication) order reversed, for every
 parameter list over adjacent pairs. -/
 theorem sun_compact_order {A : Type} [DecidableEq A] [Neg A] (half divn : A → A) (zero : A) (reg : List Nat)
@@ -188,6 +201,8 @@ example : tableClosed ["Rgate"] ["CZgate"] = false := by decide +kernel
 example : interferometerCmds (0 : Int) id id false true false [0, 1, 2] [(0, 1, 0, 5), (1, 2, 7, 0)] [some 3, none, some 0]
     (some [(0, 1, 2, 0)]) =
     [⟨.R 5, [0]⟩, ⟨.BS 7 0, [1, 2]⟩, ⟨.R 3, [0]⟩, ⟨.BS (-2) 0, [0, 1]⟩] := by decide
+example : interferometerDecompose (0 : Int) id id false false false true [0, 1] [(0, 1, 2, 5)] [some 3, none] none =
+    [⟨.R 3, [0]⟩, ⟨.R 0, [1]⟩, ⟨.BS (-2) 0, [0, 1]⟩, ⟨.R (-5), [0]⟩] := by decide
 example : (sunCompactCmds (fun x : Int => x) (fun x => x) 0 [3, 4] [((0, 1), (1, 2, 3))] (some 9)).map List.length = some 7 := by
   decide
 example : twiceVxx (gaussDiag false (4 : Rat) (1 / 4)) = 8 := by decide +kernel
